@@ -35,6 +35,8 @@ impl MemTable {
             let key = Key::from(entry);
             let value = entry.value.clone();
             self.skiplist.insert(key, value);
+            #[cfg(blue_verif)]
+            crate::verif::yield_point(1);
         }
         Ok(())
     }
